@@ -53,6 +53,27 @@ func c09HeaderTest(m *pbfModel, e ast.Expr, firstHdr types.Object, depth int) tr
 		sel, ok2 := call.Fun.(*ast.SelectorExpr)
 		return fn != nil && ok2 && fn.Name() == "GetType" && c09FirstValue(m, rootObj(info, sel.X), firstHdr)
 	}
+	// the type of the first block kept in a field of the struct the block reader returns (`first.kind`): every value
+	// the field is given is a GetType() call
+	isTypeField := func(x ast.Expr) bool {
+		base, fld := m.structLocalField(x)
+		if base == nil || !c09FirstValue(m, objOf(info, base), firstHdr) {
+			return false
+		}
+		inits, ok := m.fieldInits(base, 0, fld, map[types.Object]bool{}, 0)
+		if !ok || len(inits) == 0 {
+			return false
+		}
+		for _, in := range inits {
+			call, isCall := ast.Unparen(in).(*ast.CallExpr)
+			if !isCall || callee(info, call) == nil || callee(info, call).Name() != "GetType" {
+				return false
+			}
+		}
+		return true
+	}
+	isGetTypeOld := isGetType
+	isGetType = func(x ast.Expr) bool { return isGetTypeOld(x) || isTypeField(x) }
 	isHeaderConst := func(x ast.Expr) bool {
 		s, ok := constString(info, x)
 		return ok && s == "OSMHeader"
@@ -156,9 +177,19 @@ func c09B6(r *core.R) {
 		case *ast.FuncLit:
 			return false
 		case *ast.AssignStmt:
-			if len(s.Rhs) == 1 && len(s.Lhs) == 3 && firstBlob == nil {
+			if len(s.Rhs) == 1 && firstBlob == nil {
 				if call, ok := s.Rhs[0].(*ast.CallExpr); ok && callee(info, call) == f.blockReader.Obj {
-					firstHdr, firstBlob = objOf(info, s.Lhs[0]), objOf(info, s.Lhs[1])
+					// the results that describe the block: (header, blob, err) or (block struct, err)
+					c09FirstSet = map[types.Object]bool{}
+					for _, l := range s.Lhs {
+						if o := objOf(info, l); o != nil && !pbfIsError(o.Type()) {
+							c09FirstSet[o] = true
+							if firstHdr == nil {
+								firstHdr = o
+							}
+							firstBlob = o
+						}
+					}
 				}
 			}
 		}
@@ -189,7 +220,7 @@ func c09B6(r *core.R) {
 		r.Anchor("header decoding call in the spawner")
 	} else {
 		isH, _, _ := c09GuardsAt(m, m.start, m.start.Decl.Body, hdrCall.Pos(), firstHdr)
-		r.Check(isH && len(hdrCall.Args) == 1 && objOf(info, hdrCall.Args[0]) == firstBlob, c, hdrCall.Pos(),
+		r.Check(isH && len(hdrCall.Args) == 1 && c09FirstExpr(m, hdrCall.Args[0]), c, hdrCall.Pos(),
 			"the first block is decoded as a header only under `GetType() == \"OSMHeader\"`",
 			"the first block is decoded as a header without testing its type: a scan resumed at a data block fails or misreads it")
 	}
@@ -209,13 +240,13 @@ func c09B6(r *core.R) {
 		}
 		carries := false
 		for _, b := range c09CarriedBlobs(m, f, snd.Value, map[types.Object]bool{}) {
-			if c09FirstValue(m, objOf(info, b), firstBlob) {
+			if c09FirstExpr(m, b) {
 				carries = true
 			}
 		}
 		// the pair may have been built elsewhere (in the spawner) and handed over through a parameter / pointer
 		for _, sb := range c09SentBuilds(m, f, snd.Value, s.unit().fi, map[types.Object]bool{}, 0) {
-			if c09FirstValue(m, objOf(info, sb.blob), firstBlob) {
+			if c09FirstExpr(m, sb.blob) {
 				carries = true
 			}
 		}
@@ -264,7 +295,7 @@ func c09FirstValue(m *pbfModel, o, first types.Object) bool {
 	if o == nil || first == nil {
 		return false
 	}
-	if o == first {
+	if o == first || c09FirstSet[o] {
 		return true
 	}
 	defs := m.defsOf(o)
@@ -282,14 +313,21 @@ func c09FirstValue(m *pbfModel, o, first types.Object) bool {
 			if isNilIdent(d.e) {
 				continue
 			}
-			if d.e == nil || !c09FirstValue(m, objOf(m.info, d.e), first) {
+			if d.e == nil || !c09FirstExprOf(m, d.e, first) {
 				return false
 			}
 			bound = true
 		case "result":
 			// re-assigned from a later block read, like the captured variable
 			ok := false
-			for _, fd := range m.defsOf(first) {
+			var firstDefs []pbfOrigin
+			firstDefs = append(firstDefs, m.defsOf(first)...)
+			for k := range c09FirstSet {
+				if k != first {
+					firstDefs = append(firstDefs, m.defsOf(k)...)
+				}
+			}
+			for _, fd := range firstDefs {
 				if fd.kind == "result" && fd.idx == d.idx {
 					if c1, ok1 := ast.Unparen(fd.e).(*ast.CallExpr); ok1 {
 						if c2, ok2 := ast.Unparen(d.e).(*ast.CallExpr); ok2 && callee(m.info, c1) == callee(m.info, c2) {
@@ -320,7 +358,10 @@ func c09NilCarrier(m *pbfModel, o *types.Var, firstHdr types.Object, depth int) 
 	if len(defs) == 0 {
 		return false
 	}
+	// two spellings: (A) nil by default, a value assigned only under the not-a-header test; (B) the value assigned
+	// unconditionally, then cleared (set to nil) under exactly the is-a-header test
 	assigned := false
+	var guardedVals, plainVals, headerClears []pbfOrigin
 	for _, d := range defs {
 		switch d.kind {
 		case "zero":
@@ -331,20 +372,65 @@ func c09NilCarrier(m *pbfModel, o *types.Var, firstHdr types.Object, depth int) 
 			}
 			assigned = true
 		case "assign":
-			if isNilIdent(d.e) {
-				continue
-			}
-			// a value: the assignment must be controlled by the not-a-header test and by nothing else
-			fi := d.fi
-			body := fi.Decl.Body
-			_, notH, other := c09GuardsAt(m, fi, body, d.stmt.Pos(), firstHdr)
-			if !notH || other {
+			isH, notH, other := c09GuardsAt(m, d.fi, d.fi.Decl.Body, d.stmt.Pos(), firstHdr)
+			switch {
+			case isNilIdent(d.e):
+				if isH && !other && !notH {
+					headerClears = append(headerClears, d)
+				}
+				// (other nil assignments only make the carrier nil more often: the dispatch guard then fails the
+				// "only depending on the type" test through the value assignments below)
+			case notH && !other && !isH:
+				guardedVals = append(guardedVals, d)
+			case !isH && !notH && !other:
+				plainVals = append(plainVals, d)
+			default:
 				return false
 			}
-			assigned = true
 		default:
 			return false
 		}
 	}
+	switch {
+	case len(plainVals) == 0 && len(guardedVals) > 0:
+		assigned = true
+	case len(plainVals) > 0 && len(guardedVals) == 0 && len(headerClears) > 0:
+		// every clear comes after the value assignments (same function, later position)
+		for _, v := range plainVals {
+			for _, c := range headerClears {
+				if c.fi != v.fi || c.stmt.Pos() < v.stmt.Pos() {
+					return false
+				}
+			}
+		}
+		assigned = true
+	case len(plainVals) > 0:
+		return false
+	}
 	return assigned
+}
+
+// c09FirstSet holds the variables that receive the results of the spawner's synchronous first block read.
+var c09FirstSet map[types.Object]bool
+
+// c09FirstExpr reports whether expression e denotes (part of) the first block read by the spawner: one of the result
+// variables, a field of a result struct, or a variable / parameter that carries such a value.
+func c09FirstExpr(m *pbfModel, e ast.Expr) bool { return c09FirstExprOf(m, e, nil) }
+
+func c09FirstExprOf(m *pbfModel, e ast.Expr, first types.Object) bool {
+	e = ast.Unparen(e)
+	if base, _ := m.structLocalField(e); base != nil {
+		e = base
+	}
+	o := objOf(m.info, e)
+	if o == nil {
+		return false
+	}
+	if first == nil {
+		for k := range c09FirstSet {
+			first = k
+			break
+		}
+	}
+	return c09FirstValue(m, o, first)
 }
